@@ -117,7 +117,7 @@ def gap(rng):
 
 def run(ctx):
     rng = ctx.rng
-    n = ctx.scale(1000, 15000)
+    n = ctx.scale(2000, 15000)
     cases, exps, meta, good_exps = [], [], [], []
     for _ in range(n):
         enc = rng.choice(["w1252", "utf8"])
